@@ -218,7 +218,7 @@ pub fn context_discipline(cx: &mut Ctx, g: &Grammar) {
                         }
                     } else if recursing.contains(var.as_str()) && (name == "elts" || name == "value") {
                         let ok = if name == "elts" {
-                            val == "elts.into_iter().map(|elt|set_context(elt,ctx)).collect()"
+                            sm::elementwise(&val, Some(&ctxsrc.file)) == Some(("elts".to_string(), "set_context(_elem,ctx)".to_string()))
                         } else {
                             val == "Box::new(set_context(*value,ctx))"
                         };
